@@ -1015,6 +1015,10 @@ pub fn check_case(ctx: &mut Ctx, case: &Case, cfg: &Cfg, props: &[String], want_
                         let rr = ctx.run(text, &c2, &[], true);
                         if !moved_string_site(&rr).is_empty() {
                             site = moved_string_site(&rr);
+                        } else if has_step(&rr.events, "stale_cache_hit") {
+                            // F2 at the level of C11: the re-flow at one of the widths reused a child-line solution cached
+                            // before strings were re-indented
+                            site = " [site: re-flow reused a child-line solution cached before strings were re-indented]";
                         } else if !step_args(&rr.events, "reindent_string").is_empty() {
                             // ... or a literal that was already in place for the first wrapping and is not any more after the re-flow
                             if let (Ok(o), Ok(ti)) = (&rr.out, lex(text)) {
@@ -1040,8 +1044,13 @@ pub fn check_case(ctx: &mut Ctx, case: &Case, cfg: &Cfg, props: &[String], want_
                     let code_overflows = y1.lines().any(|l| code_len(l) > *w1 as usize);
                     let fits1 = max_line_len(y1).0 <= *w1 as usize;
                     let fits2 = max_line_len(y2).0 <= *w2 as usize;
+                    // F24: the narrower result is too long only where a trailing line comment does not fit (its code fits);
+                    // F19 at this clause: the narrower result fits and the wider one does not (the search missed a fitting
+                    // solution at the wider width: identified by input, like the third clause)
                     let site = if code_overflows { " [site: the narrower width cannot be honoured - its own result has lines longer than W1]" }
-                               else if fits1 && fits2 { " [site: both results fit their own widths]" } else { "" };
+                               else if fits1 && fits2 { " [site: both results fit their own widths]" }
+                               else if !fits1 { " [site: the narrower result is too long only where a trailing comment does not fit]" }
+                               else { " [site: the wider result does not fit its own width although the narrower one fits]" };
                     res.viols.push(Viol { prop: "C11", clause: "wider_not_more_lines", detail: format!("W1={w1} -> {} lines, W2={w2} -> {} lines{site}", line_count(y1), line_count(y2)) });
                 }
                 let (mb1, _) = max_line_len(y1);
